@@ -15,6 +15,8 @@ KNOWN_UNHASHABLE = "unhashable-exception"
 
 
 def oracle(chk, world, r, case):
+    if getattr(r, "edges_changed", None):
+        chk.failure(r.edges_changed, case)
     b = r.broker
     if r.error is not None:
         chk.failure("an exception escaped the evaluation: %r" % (r.error,), case)
